@@ -5,9 +5,11 @@
 //! same history:
 //!   C02 stepi | C02 step <k> | C02 next <temps> <k> | C02 finish <temps> <k>
 //! `exec` rewrites these parameters from its own observation, so request files replay on any tree.
+//! Context-only commands as in C01 (`frame <k>` rewritten to `frame <k> <ip|->`, `bt`, `locals`): they are interleaved after
+//! stops and steps; the step commands must start from the thread's real pc whatever frame is selected.
 //! Oracles (independent of the model): after every command the text of the live process differs from the ELF file
 //! exactly at the user breakpoints + the entry point; the program's output and exit status equal the native run.
-use super::c01::{new_line, short, user_pcs, PROGS};
+use super::c01::{ctx_command, new_line, short, user_pcs, PROGS};
 use crate::live::*;
 use crate::util::*;
 use bugstalker::debugger::address::{Address, RelocatedAddress};
@@ -70,6 +72,14 @@ pub fn gen_requests(rng: &mut Rng, n: u64, out: &mut Out, id: &str) -> Vec<Strin
                 14..=17 => { req.push(format!("{id} next - 0")); out.count("op.next", 1); }
                 _ => { req.push(format!("{id} finish - 0")); out.count("op.finish", 1); }
             }
+            // context-only commands between two commands that run the program: select a (near) caller frame, inspect
+            if id == "C02" && rng.chance(1, 4) {
+                match rng.below(6) {
+                    0..=3 => { req.push(format!("{id} frame {}", rng.range(0, 3))); out.count("ctx.frame", 1); if rng.chance(1, 3) { req.push(format!("{id} locals")); out.count("ctx.locals", 1); } }
+                    4 => { req.push(format!("{id} bt")); out.count("ctx.bt", 1); }
+                    _ => { req.push(format!("{id} locals")); out.count("ctx.locals", 1); }
+                }
+            }
         }
         if fault_session {
             // make the n-th ptrace request of one kind fail (EIO) during ONE further command, then stop the session
@@ -102,6 +112,8 @@ pub fn session(id: &str, lines: &[String], emit: &mut dyn FnMut(String)) {
     };
     let mut armed = false;
     let mut after_fault = false;
+    // the last step ended outside the executable: the pc of the (refreshed) exploration context is not compared
+    let mut ecx_out = false;
     for line in &lines[1..] {
         let t: Vec<&str> = line.split(' ').collect();
         if after_fault { emit(format!("{line}\tafter-fault")); continue; }
@@ -160,8 +172,23 @@ pub fn session(id: &str, lines: &[String], emit: &mut dyn FnMut(String)) {
                 };
                 (format!("{} {c}", t[0]), ans)
             }
+            [_, rest @ ..] if matches!(rest.first().copied(), Some("frame" | "bt" | "locals")) => {
+                match ctx_command(id, rest, &mut live, base, None, emit) {
+                    Some((r, mut ans, _)) => {
+                        let set = rest[0] == "frame" && ans != "err";
+                        if ecx_out && !set && ans.starts_with("ctx ") {
+                            let f: Vec<&str> = ans.split(' ').collect();
+                            ans = format!("ctx {} out", f[1]);
+                        }
+                        if set { ecx_out = false; }
+                        (r, ans)
+                    }
+                    None => (line.clone(), "bad-op".into()),
+                }
+            }
             _ => (line.clone(), "bad-op".into()),
         };
+        if matches!(t.get(1).copied(), Some("start" | "continue" | "stepi" | "step" | "next" | "finish")) { ecx_out = ans == "done out"; }
         let fired = armed && ipose::fault_fired();
         if armed { ipose::disarm_fault(); armed = false; }
         if fired {
